@@ -1,6 +1,7 @@
 """C10 — numeric coding is an order embedding; range decomposition is exact."""
 GEN = True             # go/extract/c10.go translates the numeric kernels from source into lean/BlugeGen/C10.lean
 STATELESS = True
+REQUIRED_BRANCHES = ["dateq", "dateq-asymmetric-ends", "dateq-unbounded-end"]
 ASSUMPTIONS = [
     "Go's int64/uint64 arithmetic is two's-complement wrap-around as modelled by BitVec 64",
     "math.Float64bits / Float64frombits are the identity on bit patterns",
@@ -12,11 +13,18 @@ def signature(rec):
     """identify a failing input for known_findings.json"""
     if rec["verdict"].startswith("bad:range-enumeration-exceeds"):
         return "numeric-range-walk-exceeds-cap"
+    if rec["verdict"].startswith("bad:date-end-point-with-infinity-image-treated-as-unbounded"):
+        # identified by the end point: only the two instants whose Int64ToFloat64 image is -Inf (start) / +Inf (end)
+        w = rec["op"].split(" ")
+        if len(w) > 2 and (w[1] == "800fffffffffffff" or w[2] == "7ff0000000000000"):
+            return "date-end-point-with-infinity-image"
     return None
 
 LEVEL_TEXT = ("Lean 4 theorems over BitVec 64 (all 2^64 values, all intervals) about the numeric coding: order embedding of "
               "Float64ToInt64 and of the prefix coding, decode/encode round trips, exactness of splitInt64Range "
-              "(split_exact), totality and exactness of the range walk (rangeMatches_total, enumerate_steps_bounded), Morton "
+              "(split_exact), totality and exactness of the range walk (rangeMatches_total, enumerate_steps_bounded), the "
+              "end-point handling of NewNumericRangeSearcher for every open/closed/unbounded end and its composition with the "
+              "walk (range_bounds_exact, range_query_exact; date_range_exact_partial for DateRangeQuery.parseEndpoints), Morton "
               "round trip; the theorems are stated about a reference model AND carried over to the code by bridge theorems "
               "(gen_*): go/extract/c10.go TRANSLATES 16 Go functions (numeric/*.go, splitInt64Range, the increment functions, "
               "the end-point handling of NewNumericRangeSearcher) from /repo's working tree into lean/BlugeGen/C10.lean on every "
@@ -30,7 +38,7 @@ TECHNIQUE = "Lean 4 proof (BitVec 64) about code translated from source on every
 
 # modules whose theorems are audited and counted as obligations (bridge Gen <-> reference, property theorems)
 _MODS = ["BlugeProofs.C10", "BlugeProofs.C10.Bridge", "BlugeProofs.C10.BridgePC", "BlugeProofs.C10.Prefix", "BlugeProofs.C10.Order",
-         "BlugeProofs.C10.Split", "BlugeProofs.C10.Enumerate", "BlugeProofs.C10.Morton"]
+         "BlugeProofs.C10.Split", "BlugeProofs.C10.Enumerate", "BlugeProofs.C10.Morton", "BlugeProofs.C10.Bounds"]
 import os as _os
 _MODS = [m for m in _MODS if _os.path.exists(_os.path.join(_os.path.dirname(_os.path.dirname(_os.path.abspath(__file__))), "lean", *m.split(".")) + ".lean")]
 AUDIT_MODULES = _MODS
